@@ -46,6 +46,13 @@ Theorem C20_alert_after_handshake_harmless : forall completes fails decrypt acc 
 Proof. exact alert_after_handshake_harmless. Qed.
 Print Assumptions C20_alert_after_handshake_harmless.
 
+(* the life of one server object: after setSslConfiguration(b), every connection accepted from then on takes the branch b -
+   whatever was configured before and however many connections were accepted before *)
+Theorem C20_branch_follows_current_config : forall tls pre b n,
+  srun tls (pre ++ SSetConfig b :: repeat SAccept n) = srun tls pre ++ repeat b n.
+Proof. exact branch_follows_current_config. Qed.
+Print Assumptions C20_branch_follows_current_config.
+
 Theorem C20_premises_satisfiable :
   let completes := fun a => beq a (B "abc") in
   let fails := fun a => negb (is_prefix a (B "abc")) && negb (is_prefix (B "abc") a) in
